@@ -21,5 +21,5 @@ CONFIG = dict(
     source_facts=True,
     timeout={"quick": 600, "thorough": 3000, "widen": 1200},
     level_text="proof: cmd_fidelity (writer mirror then reader mirror = sem of the caller's arguments) is proved for every command family — LOGIN, SELECT/EXAMINE, CREATE, DELETE, RENAME, SUBSCRIBE, UNSUBSCRIBE, STORE, COPY, MOVE (also emulated), EXPUNGE, UID EXPUNGE, STATUS (any item order), LIST, SEARCH (every criteria tree), FETCH (all items and sections), APPEND — at item level (strings, the APPEND literal and the two date formats are opaque items: C01 / time package); the writer and reader mirrors are tied to the real client and server on every run (wire bytes and stub-session log) and the oracle `stub log = sem(caller arguments)` is evaluated on every delivered command",
-    level_note="Trusted: Lean kernel; harness/driver; string and date encodings below the item level (C01, time package; re-derived byte for byte by the tie). Proved for the writer's listed order of map-ordered items (any order for STATUS; the others are compared as multisets on every run) and for canonical number sets; literal non-canonical sets, strings above 4096 bytes, non-UTF-8 mailbox names and CONDSTORE items are covered by the tie/oracle only or are outside the property (see the header of lean/GoImap/Props/C02.lean).",
+    level_note="Trusted: Lean kernel; harness/driver; string and date encodings below the item level (C01, time package; re-derived byte for byte by the tie). Proved for every order of the map-ordered items (Delivers: STATUS, LIST RETURN (STATUS), SEARCH RETURN, FETCH scalars), for canonical number sets against sem and for literal non-canonical sets against the delivered set characterised by denotation (C15); the server's limits (strings of 4096 bytes, 1000 nested lists) are hypotheses tied to the source facts; strings above the limit, non-UTF-8 mailbox names and CONDSTORE items are covered by the tie/oracle only or are outside the property (see the header of lean/GoImap/Props/C02.lean).",
 )
